@@ -475,6 +475,10 @@ func (h *H) planBoundary(add addFn) {
 			add("exact-boundary", 3000, func() { h.checkExactBoundary(i, n) })
 		}
 	}
+	for i := 1; i <= h.pick(120, 600); i++ {
+		i := i
+		add("exact-thresholds", 2000, func() { h.checkExactThresholds(i) })
+	}
 	idx = 0
 	for rep := 0; rep < h.pick(3, 8); rep++ {
 		for _, s := range h.rectsRep(1) {
